@@ -93,8 +93,6 @@ Look(k, self, vals) ==
   ELSE [ok |-> TRUE, v |-> vals[slotm[k[1]]]]
 
 \* Mapping::map: amount = (input - in0) / (in1 - in0); clamp(0, 1); easing.apply; interpolate(out0, out1, amount)
-RECURSIVE Gcd(_, _)
-Gcd(a, b) == IF b = 0 THEN a ELSE Gcd(b, a % b)
 MapCode(vs, x) ==
   LET num == x - vs.i0  den == vs.i1 - vs.i0
       sn == IF den < 0 THEN -num ELSE num
